@@ -28,6 +28,15 @@ Check (C05_typed_example).
 Check (eq_refl : frag {| ce_classes := []; ce_enums := []; ce_objects := []; ce_this := None |} [("x"%string, (0, DLet))] (EUnary UMinus (EIdent "x")) = true).
 Check (eq_refl : frag {| ce_classes := []; ce_enums := []; ce_objects := []; ce_this := None |} [("x"%string, (0, DLet))] (EMember (EIdent "x") "p") = true).
 Check (eq_refl : frag {| ce_classes := []; ce_enums := []; ce_objects := []; ce_this := None |} [("x"%string, (0, DLet))] (ECall (EIdent "x") []) = false).
+Check (eq_refl : frag {| ce_classes := []; ce_enums := []; ce_objects := []; ce_this := None |} [("x"%string, (0, DLet))] (EAssign (EIdent "x") (EArray [EInt 1])) = true).
+Check (eq_refl : frag {| ce_classes := []; ce_enums := []; ce_objects := []; ce_this := None |} [] EFunction = false).
+Check (C05_typed_example_calls).
+Check (TyAssignLocal : forall E G x t r dr, G x = Some (t, DLet) -> Typed E G r dr -> spec_assignable E t (ecsd dr) = true -> Typed E G (EAssign (EIdent x) r) (DConcrete T_VOID)).
+Check (TyMethodCall : forall E G o m args dobj ty cls dc ms das mi d, Typed E G o dobj -> concrete dobj = Some ty -> class_of_type ty = Some cls -> get_property E cls m = None ->
+    get_methods E cls m = Some (dc, ms) -> Forall2 (Typed E G) args das ->
+    find (fun mi => Nat.eqb (List.length (mi_args mi)) (List.length das) && spec_args E (mi_args mi) (map ecsd das)) ms = Some mi ->
+    concrete d = Some (mi_ret mi) -> Typed E G (ECall (EMember o m) args) d).
+Check (TyArray : forall E G es ds c d, es <> [] -> Forall2 (Typed E G) es ds -> spec_array_elem E (map ecsd ds) = Some c -> concrete d = Some (TList c) -> Typed E G (EArray es) d).
 Check (eq_refl : frag {| ce_classes := []; ce_enums := []; ce_objects := []; ce_this := None |} [] (EIdent "Math") = false).
 Check (C05_typed_example_members).
 Check (TyMember : forall E G o p dobj ty cls dc pi d, Typed E G o dobj -> concrete dobj = Some ty -> class_of_type ty = Some cls -> get_property E cls p = Some (dc, pi) ->
